@@ -19,6 +19,25 @@ def mem_fn(ty):
     return _mem_fns[k]
 
 
+def _mentions(f, consts):
+    """does the formula mention one of the constants (bound indices of an enclosing comprehension body)"""
+    ids = {c.get_id() for c in consts}
+    todo, seen = [f], set()
+    while todo:
+        t = todo.pop()
+        i = t.get_id()
+        if i in seen:
+            continue
+        seen.add(i)
+        if i in ids:
+            return True
+        if z3.is_quantifier(t):
+            todo.append(t.body())
+        elif z3.is_app(t):
+            todo.extend(t.children())
+    return False
+
+
 class Infeasible(Exception):
     pass
 
@@ -117,6 +136,10 @@ class Ctx:
     def fresh(self, ty, hint="v"):
         if ty == OPQ:
             return Opaque(hint)
+        if getattr(self, "bound_vars", None):
+            # inside the body of a comprehension over a symbolic iterable the element value must be a FUNCTION of the bound index: a new
+            # constant (the result of a contracted call, a new object ...) would be one value shared by every position
+            raise Unsupported("a value that is not a function of the element inside a comprehension over a symbolic iterable")
         if ty.name == "Tuple":
             return tuple(self.fresh(t, hint) for t in ty.args)
         t = z3.Const(self.fresh_name(hint), sort_of(ty))
@@ -153,6 +176,10 @@ class Ctx:
             self.assume(BIRTH(v.t) < self.now)
 
     def assume(self, f):
+        bv = getattr(self, "bound_vars", None)
+        if bv and _mentions(f, bv):
+            # a fact about the bound index of a comprehension body would be assumed for ONE arbitrary index and then generalised
+            raise Unsupported("an assumption about the bound element inside a comprehension over a symbolic iterable")
         if self.guards:
             f = z3.Implies(z3.And(*self.guards), f)
         self.pc.append(f)
